@@ -2,6 +2,7 @@ package main
 
 import (
 	"fmt"
+	"io"
 	"reflect"
 	"strconv"
 	"strings"
@@ -103,7 +104,15 @@ func implDecode(entry string, o optSet, rs readerSpec) (out decOut) {
 			}
 			done <- res
 		}()
-		rd := rs.reader()
+		sr := rs.reader()
+		var rd io.Reader = sr
+		// the library may look at what ELSE the reader can do (io.ByteReader, Len, ...): with an unconstrained
+		// schedule, a clean EOF and no fault the scheduled reader behaves like a bytes.Reader; every other such
+		// call gets a reader that also offers the optional interfaces of one
+		rich := len(rs.Sched) == 0 && !rs.Fault && !rs.Ewd && (len(rs.Data)+richReaderSalt)%2 == 0
+		if rich {
+			rd = &richReader{sr}
+		}
 		switch entry {
 		case "D":
 			f, err := fit.Decode(rd, o.options()...)
@@ -156,7 +165,7 @@ func implDecode(entry string, o optSet, rs readerSpec) (out decOut) {
 				res.ErrText = err.Error()
 			}
 		}
-		res.Pos = rd.pos
+		res.Pos = sr.pos
 	}()
 	select {
 	case r := <-done:
@@ -366,4 +375,20 @@ func (o decOut) observableMasked() string {
 		fs[i] = maskAccumText(f)
 	}
 	return fmt.Sprintf("err=%d pos=%d hdr=%s files=%s", o.ErrClass, o.Pos, o.Hdr, strings.Join(fs, " ## "))
+}
+
+// richReader offers, besides Read, the optional interfaces of bytes.Reader
+// that a library could test for: io.ByteReader/io.ByteScanner and Len.
+type richReader struct{ *schedReader }
+
+var richReaderSalt = 0
+
+func (r *richReader) Len() int { return len(r.data) }
+func (r *richReader) ReadByte() (byte, error) {
+	var b [1]byte
+	n, err := r.schedReader.Read(b[:])
+	if n == 1 {
+		return b[0], nil
+	}
+	return 0, err
 }
